@@ -271,7 +271,7 @@ func (x *Exec) detResults(st *State, name string, args []Val, res []Val) {
 
 func (x *Exec) unknownCall(st *State, name string, sig *types.Signature, args []Val, cont func(*State, []Val)) {
 	x.unverif[name]++
-	ws := &writeSet{heaps: map[string]string{}, cells: map[int]bool{}, iters: map[int]bool{}}
+	ws := newWriteSet()
 	for _, a := range args {
 		x.noteEscapingCells(a, ws)
 	}
